@@ -229,7 +229,8 @@ def check(run):
         res = corr_stream(run, AREA, exe, allcases, spec_line=spec_line, stream="uid", impl_env=FAST_ASAN)
     nv, npairs = classify(run, res, allcases, "uid", exe)
     if not ok and nv == 0:
-        run.violation("proof:%s" % failed, "proof", "proof obligation no longer checks: %s\n%s" % (failed, log[-1500:]), {"theorem": failed, "coq_log": log[-3000:]})
+        run.violation("proof:%s" % failed, "proof", "proof obligation no longer checks: %s; %s\n%s" % (failed, "; ".join(n for n in run.notes if n.startswith("translator") or n.startswith("skeleton")) or "the translator recognised every statement (the regenerated constants themselves violate the side condition)", log[-1500:]),
+                      {"theorem": failed, "coq_log": log[-3000:], "translator_notes": [n for n in run.notes if n.startswith("translator") or n.startswith("skeleton")]})
     # one-filter chains go through C07's chain model: where that model has no valid constants for this tree only the specification judges them
     cp = os.path.join(run.scratch, "c14-chainok.txt")
     open(cp, "w").write("chainok\n")
